@@ -99,4 +99,48 @@ macro "mach_simp" "[" ts:simpLemma,* "]" : tactic =>
       setEmpty, release, setVar, share, ctorPtr, mkBlock, wr_append_one, upd_upd_same, Option.bind_assoc, $ts,*])
 
 
+theorem dLen_desc (s : St) (v : Nat) : dLen s (s.vars v) = (desc s v).map (·.len) := by
+  unfold dLen desc
+  cases s.vars v with
+  | empty => rfl
+  | foreign r off len => rfl
+  | blk b => cases hb : s.heap b <;> simp [hb]
+
+theorem dStr_desc (s : St) (v : Nat) : dStr s (s.vars v) = (desc s v).map (fun d => ⟨d.base, d.off⟩) := by
+  unfold dStr desc
+  cases s.vars v with
+  | empty => rfl
+  | foreign r off len => rfl
+  | blk b => cases hb : s.heap b <;> simp [hb]
+
+/-- after a successful `detach` the String owns a block exclusively and has the requested length -/
+theorem detach_excl {s s' : St} {v c m : Nat} (e : detach s v c m = some s') :
+    ∃ b blk, s'.vars v = .blk b ∧ s'.heap b = some blk ∧ blk.ref = 1 ∧ blk.len = c := by
+  unfold detach at e
+  cases hd : desc s v with
+  | none => simp [hd] at e
+  | some d =>
+    simp only [hd, Option.bind_eq_bind, Option.bind_some] at e
+    by_cases fast : d.ref = 1 ∧ m ≤ d.cap
+    · simp only [fast, and_self, if_true, Option.bind_eq_some_iff] at e
+      obtain ⟨m0, _, m1, _, e⟩ := e
+      unfold writeOwn at e
+      cases hloc : s.vars v with
+      | empty => simp [hloc] at e
+      | foreign r off len => simp [hloc] at e
+      | blk b =>
+        cases hb : s.heap b with
+        | none => simp [hloc, hb] at e
+        | some blk =>
+          by_cases r1 : blk.ref = 1
+          · simp [hloc, hb, r1] at e
+            subst e
+            exact ⟨b, ⟨m1, c, blk.cap, blk.ref⟩, hloc, by simp [r1], r1, rfl⟩
+          · simp [hloc, hb, r1] at e
+    · simp only [fast, if_false, Option.bind_eq_some_iff, Option.pure_def, Option.some.injEq] at e
+      obtain ⟨src, _, m0, _, m1, _, e⟩ := e
+      subst e
+      exact ⟨(setEmpty s v).next, ⟨m1, c, capRule m, 1⟩, by simp [allocSet], by simp [allocSet], rfl, rfl⟩
+
+
 end Nstd.Str
